@@ -252,7 +252,7 @@ Fixpoint count (x : N) (p : list N) : nat :=
 (* same part sizes for every id occurring in either array *)
 Definition same_sizes (p p' : list N) : Prop := forall x, count x p' = count x p.
 Definition same_sizesb (p p' : list N) : bool :=
-  forallb (fun x => Nat.eqb (count x p') (count x p)) (p ++ p').
+  forallb (fun x => Nat.eqb (count x p') (count x p)) (uniq [] (p ++ p')).   (* each id once *)
 
 Definition check_C15 (g : graph) (p p' : list N) : bool :=
   Nat.eqb (length p') (length p) && same_sizesb p p' && (edge_cut g p' <=? edge_cut g p).
